@@ -15,7 +15,7 @@ def _c05_case(c):
 # vm_compute and compared with what the extracted OCaml runner printed (model.txt).
 # This cross-checks the extraction and the OCaml driver, not the implementation.
 
-_VM_ERR = {"OK": "None", "EOF": "Some EEof", "INJECTED": "Some EInjected", "UNEXPECTED_EOF": "Some EUnexpEof",
+_VM_ERR = {"WRITE": "Some EWrite", "SHORT_WRITE": "Some EShortWrite", "TRAVERSAL": "Some ETraversal", "OVERWRITE": "Some EOverwrite", "OK": "None", "EOF": "Some EEof", "INJECTED": "Some EInjected", "UNEXPECTED_EOF": "Some EUnexpEof",
            "BAD_DIGEST": "Some EBadDigest", "TRAILING": "Some ETrailing", "MISMATCH": "Some EMismatch",
            "EARLY": "Some EEarly", "INVALID_SIZE": "Some EInvalidSize", "EXISTS": "Some EExists",
            "TOO_BIG": "Some ETooBig", "NOT_FOUND": "Some ENotFound", "DUP_NAME": "Some EDupName", "FUEL": "Some EFuel"}
@@ -88,6 +88,57 @@ def _vm_goal(case, out):
         ln, fv = o[2][1:].split(":")
         return ("let evs := %s in let '((e, out), v) := %s in (e, vm_delivered evs v, length out, vm_fnv out)\n  = (%s, %s%%nat, %s%%nat, %s)"
                 % (_vm_script(sc), call, _VM_ERR[o[0]], o[1], ln, fv))
+    if p[0] == "CW":
+        _, hs, bufsz, dg, sz, comb, lim, sc, wmode, wat = p
+        call = ("copy_buffer_w (vm_h %s) %s true (vm_fuel evs) (mkBase evs %s) %s%%nat %s %s (mkW (Some %s) %s%%nat)"
+                % (_vm_tbl(hs), _vm_bool(comb), _vm_lim(lim), bufsz, _vm_str(dg), _vm_z(sz), "WShort" if wmode == "short" else "WFail", wat))
+        ln, fv = o[2][1:].split(":")
+        return ("let evs := %s in let '(((e, out), v), _) := %s in (e, vm_delivered evs v, length out, vm_fnv out)\n  = (%s, %s%%nat, %s%%nat, %s)"
+                % (_vm_script(sc), call, _VM_ERR[o[0]], o[1], ln, fv))
+    if p[0] == "PF":
+        hs, kind, n = p[1], p[2], int(p[3])
+        f = p[4:]
+        limit = "None" if kind == "mem" else "(Some %s)" % _vm_z(kind[3:])
+        lets, closes, reads = [], [], []
+        m = "(@nil (desc * str))"
+        steps = " ".join(o).split(" | ")
+        for i in range(n):
+            stop, mt, dg, sz, comb, sc, ks = f[7 * i:7 * i + 7]
+            kl = "(@nil nat)" if ks == "-" else "[" + "; ".join(k + "%nat" for k in ks.split(",")) + "]"
+            lets.append("let '((rs%d, c%d), m%d) := proxy_fetch (vm_h tbl) %s %s %s (mkDesc %s %s %s) %s %s %s in"
+                        % (i, i, i, limit, _vm_bool(stop), m, _vm_str(mt), _vm_str(dg), _vm_z(sz), _vm_bool(comb), _vm_script(sc), kl))
+            m = "m%d" % i
+            toks = steps[i].split(" ")
+            rd = [t for t in toks if t.startswith("r=")]
+            cl = [t for t in toks if t.startswith("c=")][0][2:]
+            closes.append(_VM_ERR[cl])
+            reads.append("[" + "; ".join("(%s%%nat, %s)" % (t[2:].split("/")[0].split(":")[0], _VM_ERR[t.split("/")[1]]) for t in rd) + "]"
+                         if rd else "(@nil (nat * option rerr))")
+        b = steps[n].strip()[2:] if len(steps) > n else "-"
+        cnt = 0 if b == "-" else b.count(";") + 1
+        return ("let tbl := %s in %s\n  ([%s], [%s], length %s)\n  = ([%s], [%s], %d%%nat)"
+                % (_vm_tbl(hs), "\n  ".join(lets),
+                   "; ".join("map (fun r => (length (fst r), snd r)) rs%d" % i for i in range(n)),
+                   "; ".join("c%d" % i for i in range(n)), m,
+                   "; ".join(reads), "; ".join(closes), cnt))
+    if p[0] == "ST" and p[2].startswith("file"):
+        hs, kind, n = p[1], p[2], int(p[3])
+        f = p[4:]
+        opts = {"fileD": "(mkOpts true false (Some defaultFallbackPushSizeLimit))", "fileI": "(mkOpts false true (Some defaultFallbackPushSizeLimit))",
+                "fileF": "(mkOpts false false None)"}.get(kind, "default_opts")
+        lets, res = [], []
+        st = "(mkFs [] [] [] [])"
+        for i in range(n):
+            name, mt, dg, sz, comb, sc = f[6 * i:6 * i + 6]
+            nm = name.split(":")[0]
+            lets.append("let evs%d := %s in let '(e%d, s%d) := file_push_opt (vm_h tbl) %s true %s (vm_fuel evs%d) %s %s (mkDesc %s %s %s) evs%d in"
+                        % (i, _vm_script(sc), i, i, _vm_bool(comb), opts, i, st, _vm_str(nm), _vm_str(mt), _vm_str(dg), _vm_z(sz), i))
+            st = "s%d" % i
+            res.append(_VM_ERR[o[3 * i]])
+        b = [t for t in o if t.startswith("B=")][0][2:]
+        cnt = 0 if b == "-" else b.count(";") + 1
+        return ("let tbl := %s in %s\n  ([%s], length (f_files %s)) = ([%s], %d%%nat)"
+                % (_vm_tbl(hs), "\n  ".join(lets), "; ".join("e%d" % i for i in range(n)), st, "; ".join(res), cnt))
     if p[0] == "ST" and p[2] in ("mem", "oci"):
         hs, kind, n = p[1], p[2], int(p[3])
         f = p[4:]
@@ -122,17 +173,21 @@ def _c05_vm_sample(d, tier, coq, build, want=240):
     if len(outs) < 1000:
         return []  # replay / corpus runs
     if tier == "thorough":
-        quota = {"RA": 90, "CB": 90, "ST": 80}
+        quota = {"RA": 80, "CB": 80, "ST": 70, "STF": 50, "CW": 40, "PF": 40}
     else:
-        quota, want = {"RA": 20, "CB": 20, "ST": 20}, 50
+        quota, want = {"RA": 15, "CB": 15, "ST": 15, "STF": 10, "CW": 8, "PF": 8}, 50
     total, got, stride = collections.Counter(), collections.Counter(), collections.Counter()
 
     def eligible(c):
         k = c.split(" ", 1)[0]
         if k not in quota or len(c) > 2500:
             return None
-        if k == "ST" and c.split(" ")[2] not in ("mem", "oci"):
-            return None
+        if k == "ST":
+            kd = c.split(" ")[2]
+            if kd.startswith("file"):
+                return "STF"
+            if kd not in ("mem", "oci"):
+                return None
         return k
     with open(os.path.join(d, "cases.txt")) as f:
         for l in f:
